@@ -132,3 +132,17 @@ def run(ctx):
                "execute_order_by does not sort through order_compare (it would use the derived, representation-level ordering of Value)", ob.file)
     stable = all(c.name.split("::")[-1] in ("sort_by", "sort_by_key", "sort_by_cached_key", "sort") for c in sorts)
     ctx.oblige(stable, "C20.4", "order-by-unstable-sort", "ORDER BY uses an unstable sort: rows with equal keys change their relative order between runs, so SKIP/LIMIT windows are not reproducible", ob.file)
+
+    # ---- clause 5: integers are compared exactly ------------------------------------------------------
+    # i64 values above 2^53 are not representable in f64: a comparator that converts both integers to f64 makes neighbours compare equal,
+    # and the (stable) sort then leaves them in input order.  For the (Int, Int) pair the decision tree must end in the exact integer
+    # comparison (`<i64 as Ord>::cmp`), never in a float conversion / float comparison helper.
+    ctx.rule("C20.5", "(Int, Int) is ordered by the exact integer comparison (`<i64 as Ord>::cmp`); (Bool, Bool) by the bool comparison")
+    for a, want in (("Int", "i64"), ("Bool", "bool")):
+        g = out[(a, a)]
+        name = g[1] if isinstance(g, tuple) else str(g)
+        exact = isinstance(g, tuple) and g[0] == "call" and name.endswith("::cmp") and ("impl core::cmp::Ord for %s" % want in name or "<%s as core::cmp::Ord>" % want in name)
+        ctx.instance("C20.5", "(%s, %s) is compared by %s" % (a, a, name))
+        ctx.oblige(exact, "C20.5", "exact:%s" % a,
+                   "(%s, %s) is ordered through %s instead of the exact %s comparison: integers beyond 2^53 that round to the same float compare as equal "
+                   "and keep their input order" % (a, a, name.split("::")[-1], want), nb.file)
